@@ -12,29 +12,15 @@ NODE_MODE = {"file": 0o640, "dir": 0o700}      # permission bits of the snapshot
 
 def explain(r, c):
     """name of the known mechanism that explains outside change c of scenario r, or None.
-    Known mechanisms only ever change METADATA of the path a symlink points to:
-      dup-symlink-path: the tree lists one path as a symlink (to this outside path) and as a file/dir; the
-        later node's metadata is applied through the freshly created symlink (mode = that node's mode)
+    The only listed mechanism changes nothing but METADATA of the path a pre-existing symlink points to:
       skipped-hardlink-first-over-preexisting-symlink: hard-link group a,b; target/a pre-exists as symlink to
         this outside path and is skipped by --overwrite never/if-newer; b becomes a link of the symlink and
-        gets the file node's mode"""
+        gets the file node's mode
+    (the duplicate-name swap was fixed in restic: duplicate child names are rejected; it is a hard violation)"""
     if c["w"] != "meta":
         return None
     path = "/".join(c["p"])
-    at = {}
-    has_hl = False
-    for n in r["nodes"]:
-        at.setdefault(n["n"], []).append((n["t"], n["to"]))
-        has_hl = has_hl or n["hl"]
-        if n["t"] == "dir":
-            for k in n["kids"]:
-                nm, ty = KID[k]
-                at.setdefault(n["n"] + "/" + nm, []).append((ty, {"s": "outdir", "t": "outfile"}.get(k, "")))
-    for p, lst in at.items():
-        others = {t for t, _ in lst if t != "symlink"}
-        for t, to in lst:
-            if t == "symlink" and OUT.get(to) == path and c["m"] in {NODE_MODE[o] for o in others if o in NODE_MODE}:
-                return "dup-symlink-path"
+    has_hl = any(n["hl"] for n in r["nodes"])
     env, pre = r["env"], r["env"]["pre"]
     if has_hl and OUT.get(pre["a"]) == path and env["overwrite"] in ("never", "if-newer") and c["m"] == NODE_MODE["file"]:
         return "skipped-hardlink-first-over-preexisting-symlink"
@@ -75,4 +61,4 @@ def run(ctx):
                          "observable state = type, size, sha256, link target, mode, mtime, owner, link count of every path of the sandbox (no atime/ctime); a metadata-only change of an outside inode that was hard-linked into the target before the restore is tolerated",
                          "errors reported by restore are ignored (the CLI continues after them)",
                          "symlink targets are relative paths to the sentinel directory/file next to the target; file system = the sandbox's ext4; root",
-                         "thorough: seeded 40% sample of the cross product (trees x environments, 'leaves' selection only for trees with a directory) with --sparse chosen by parity; quick: seeded 1.2% sample"])
+                         "thorough: seeded 40% sample of the cross product (trees x environments, 'leaves' selection only for trees with a directory) with --sparse chosen by parity; quick: seeded 1% sample"])
